@@ -1,4 +1,4 @@
-"""P part shared by C03 / C15 (reader side) and C02 (writer side + codec tables): the schema as a pre-order list with child counts -
+"""P part shared by C03 / C15 (reader side), C02 (writer side + codec tables) and C01 (codec round trips + buffer ownership): the schema as a pre-order list with child counts -
 schema.schema_tree / SchemaHelper.__init__ / flatten / schema_element under contract, writer.make_metadata emits a well-formed list,
 compression.py tables against the CompressionCodec enum (contracts/c03_schematree.py)."""
 import re
@@ -9,9 +9,13 @@ from vlib.common import PROVED, REFUTED, UNKNOWN
 # families per property
 SELECT = {"C03": ("tree", "init", "flatten", "element", "callsites", "native", "codec"),
           "C15": ("tree", "init", "flatten", "element", "callsites", "native"),
-          "C02": ("meta", "nativemeta", "codec")}
+          "C02": ("meta", "nativemeta", "codec"),
+          "C01": ("codec",)}
 # of the codec family, C03 (the reader) takes the number -> decompressor direction and the round trips
-C03_CODEC = re.compile(r"^codec\.(roundtrip|roundtrip_table|rev_map|read_page|unknown_number|idl_enum|tables\.decompress_into|enumeration_seconds)")
+C03_CODEC = re.compile(r"^codec\.(roundtrip|roundtrip_table|rev_map|read_page|unknown_number|idl_enum|tables\.decompress_into|enumeration_seconds"
+                       r"|decompress_data\.|module_state_not_mutated|compress_data\.|ownership)")
+# C01 (round trip under every codec): the round trips, the number <-> name table and the ownership of the buffers
+C01_CODEC = re.compile(r"^codec\.(roundtrip|roundtrip_table|decompress_data\.|module_state_not_mutated|compress_data\.|ownership|enumeration_seconds)")
 
 # obligation (regex) -> finding id suffix; the id is <prop>-P-<suffix> (one record per property in contracts/findings.jsonl)
 KNOWN = [("schema-leftover-elements-accepted", re.compile(r"^schema_tree\.ill_formed_list_is_refused\[(native: )?leftover elements after the root's subtree\]$")),
@@ -37,6 +41,8 @@ def p_schematree(ctx):
         fn = M.FUNCTION_OF.get(fam, "schema")
         for name in res.order:
             if ctx.prop == "C03" and fam == "codec" and not C03_CODEC.search(name):
+                continue
+            if ctx.prop == "C01" and fam == "codec" and not C01_CODEC.search(name):
                 continue
             st = res.status(name)
             entries = res.d[name]
